@@ -24,7 +24,7 @@
 From Coq Require Import List Arith Bool Lia ZArith Reals.
 From Flocq Require Import Core BinarySingleNaN.
 From LMBase Require Import Res ListX IEEE.
-From LMScore Require Import ScoreModel SimdModel GenAvx2 ScoreCheck ScoreProofs SimdProofs Sse2Proofs
+From LMScore Require Import ScoreModel SimdModel GenAvx2 GenLane4 ScoreCheck ScoreProofs SimdProofs Sse2Proofs
      F32Proofs CheckProofs ReadmeExample StripeBridge.
 From LMStripe Require NetModel StripeModel StripeAvx2.
 Import ListNotations.
@@ -225,11 +225,11 @@ Theorem C01_score_sse2_eq :
     0 < K -> Forall (fun x => x < K) s -> pssm_wf K pssm ->
     Striped C (K - 1) s q -> sc_wf C old ->
     1 <= length pssm -> length pssm - 1 <= sq_wrap q ->
-    res_equiv (sse2_rows_into add zero C pssm q a b old)
+    res_equiv (sse2_rows_into add zero sse2_consts C pssm q a b old)
               (generic_rows_into add zero C pssm q a b old).
 Proof.
   intros T add zero P C K pssm s q a b old P0 Pa Pz HC HC16 HK Hs Hp Hst Hw HM Hwrap.
-  apply (sse2_equiv add zero C K P); auto.
+  apply (sse2_equiv add zero C K P); auto; try (vm_compute; reflexivity).
   eapply striped_mat_wf; eauto.
 Qed.
 
@@ -248,12 +248,51 @@ Theorem C01_score_sse2_eq_f32 :
     0 < K -> Forall (fun x => x < K) s -> pssm_wf K pssm ->
     Striped C (K - 1) s q -> sc_wf C old ->
     1 <= length pssm -> length pssm - 1 <= sq_wrap q ->
-    res_equiv (sse2_rows_into F32.add F32.zero C pssm q a b old)
+    res_equiv (sse2_rows_into F32.add F32.zero sse2_consts C pssm q a b old)
               (generic_rows_into F32.add F32.zero C pssm q a b old).
 Proof.
   intros C K pssm s q a b old HC HC16 HK Hs Hp Hst Hw HM Hwrap.
   apply (C01_score_sse2_eq f32 F32.add F32.zero not_nzero C K pssm s q a b old
            f32_zero_not_nzero f32_add_not_nzero f32_add_zero); auto.
+Qed.
+
+(* NEON (neon.rs is not compiled on an x86 host: this model is tied to the source by the
+   translator only, its intrinsics semantics is never exercised).  Same kernel shape as SSE2;
+   the wrapper has NO row-range assertion, so equality holds for the ranges whose rows, and
+   the M - 1 rows below them, exist in the sequence matrix (all full scans and all sub-ranges
+   a < b <= R of a configured sequence), for L < M and for empty ranges ... *)
+Theorem C01_score_neon_eq :
+  forall (T : Type) (add : T -> T -> T) (zero : T) (P : T -> Prop) (C K : nat)
+         (pssm : list (list T)) (s : list nat) (q : sseq) (a b : nat) (old : sscores T),
+    P zero -> (forall x y, P x -> P (add x y)) -> (forall x, P x -> add x zero = x) ->
+    0 < C -> C mod 16 = 0 ->
+    0 < K -> Forall (fun x => x < K) s -> pssm_wf K pssm ->
+    Striped C (K - 1) s q -> sc_wf C old ->
+    1 <= length pssm -> length pssm - 1 <= sq_wrap q ->
+    b + length pssm - 1 <= length (sq_mat q) \/ sq_len q < length pssm \/ b <= a ->
+    res_equiv (neon_rows_into add zero neon_consts C pssm q a b old)
+              (generic_rows_into add zero C pssm q a b old).
+Proof.
+  intros T add zero P C K pssm s q a b old P0 Pa Pz HC HC16 HK Hs Hp Hst Hw HM Hwrap Hr.
+  apply (neon_equiv_in_range add zero C K P); auto; try (vm_compute; reflexivity).
+  eapply striped_mat_wf; eauto.
+Qed.
+
+(* ... and is REFUTED beyond: a range reaching past the look-ahead rows makes the NEON kernel
+   load through a raw pointer past the sequence matrix (undefined behaviour, [Err 66]) where the
+   generic kernel panics on the slice index and the SSE2 / AVX2 wrappers panic on their assertion.
+   Witness: L = 3, C = 16, M = 2, configure() (one look-ahead row), rows 0..2.  Finding by
+   reading + model; it cannot be replayed on this host. *)
+Theorem C01_neon_range_unguarded_refuted :
+  let pssm := [[1; 2; 3; 4; 5]; [6; 7; 8; 9; 10]] in
+  let q := stripe_of 16 4 [0; 1; 2] 1 in
+  Striped 16 4 [0; 1; 2] q /\ pssm_wf 5 pssm /\ length pssm - 1 <= sq_wrap q /\
+  neon_rows_into Nat.add 0 neon_consts 16 pssm q 0 2 sc_empty = Err 66 /\
+  sse2_rows_into Nat.add 0 sse2_consts 16 pssm q 0 2 sc_empty = Panic 32 /\
+  generic_rows_into Nat.add 0 16 pssm q 0 2 sc_empty = Panic 1.
+Proof.
+  split; [apply (stripe_of_striped 16 5)|].
+  split; [repeat constructor|]. vm_compute. repeat split; lia.
 Qed.
 
 (* the runtime dispatcher, for every arm (and, in fact, every arm -> kernel table) *)
@@ -265,7 +304,7 @@ Theorem C01_score_dispatch_eq :
     0 < K -> Forall (fun x => x < K) s -> pssm_wf K pssm ->
     Striped 32 (K - 1) s q -> sc_wf 32 old ->
     1 <= length pssm -> length pssm - 1 <= sq_wrap q ->
-    res_equiv (dispatch_rows_into add zero dispatch_score_f32 avx2_permute_consts avx2_gather_consts
+    res_equiv (dispatch_rows_into add zero dispatch_score_f32 avx2_permute_consts avx2_gather_consts sse2_consts
                                   K pssm pads ar q a b old)
               (generic_rows_into add zero 32 pssm q a b old).
 Proof.
@@ -281,7 +320,7 @@ Theorem C01_score_dispatch_eq_f32 :
     Striped 32 (K - 1) s q -> sc_wf 32 old ->
     1 <= length pssm -> length pssm - 1 <= sq_wrap q ->
     res_equiv (dispatch_rows_into F32.add F32.zero dispatch_score_f32 avx2_permute_consts
-                                  avx2_gather_consts K pssm pads ar q a b old)
+                                  avx2_gather_consts sse2_consts K pssm pads ar q a b old)
               (generic_rows_into F32.add F32.zero 32 pssm q a b old).
 Proof.
   intros K pssm pads s q ar a b old HK Hs Hp Hst Hw HM Hwrap.
@@ -302,9 +341,9 @@ Theorem C01_backends_full_scan :
     exists sc,
       generic_score F32.add F32.zero 32 pssm q = Ok sc /\
       score_with (avx2_rows_into F32.add F32.zero avx2_permute_consts avx2_gather_consts K pssm pads) q = Ok sc /\
-      score_with (sse2_rows_into F32.add F32.zero 32 pssm) q = Ok sc /\
+      score_with (sse2_rows_into F32.add F32.zero sse2_consts 32 pssm) q = Ok sc /\
       score_with (dispatch_rows_into F32.add F32.zero dispatch_score_f32 avx2_permute_consts
-                                     avx2_gather_consts K pssm pads ar) q = Ok sc /\
+                                     avx2_gather_consts sse2_consts K pssm pads ar) q = Ok sc /\
       sc_max sc = length s + 1 - length pssm /\
       forall r c, r < seq_R 32 (length s) -> c < 32 ->
         nth c (nth r (sc_mat sc) []) F32.zero =
@@ -338,8 +377,8 @@ Theorem C01_backends_sub_range :
       sc_mat sub = firstn (b - a) (skipn a (sc_mat full)) /\ sc_max sub = sc_max full /\
       generic_rows_into F32.add F32.zero 32 pssm q a b old = Ok sub /\
       avx2_rows_into F32.add F32.zero avx2_permute_consts avx2_gather_consts K pssm pads q a b old = Ok sub /\
-      sse2_rows_into F32.add F32.zero 32 pssm q a b old = Ok sub /\
-      dispatch_rows_into F32.add F32.zero dispatch_score_f32 avx2_permute_consts avx2_gather_consts
+      sse2_rows_into F32.add F32.zero sse2_consts 32 pssm q a b old = Ok sub /\
+      dispatch_rows_into F32.add F32.zero dispatch_score_f32 avx2_permute_consts avx2_gather_consts sse2_consts
                          K pssm pads ar q a b old = Ok sub.
 Proof.
   intros K pssm pads s q ar a b old HK Hs Hp Hst Hw HM Hwrap HL Hab Hb.
@@ -360,8 +399,8 @@ Theorem C01_backends_short_sequence :
     1 <= length pssm -> length pssm - 1 <= sq_wrap q -> length s < length pssm ->
     generic_rows_into F32.add F32.zero 32 pssm q a b old = Ok (mkScores [] 0) /\
     avx2_rows_into F32.add F32.zero avx2_permute_consts avx2_gather_consts K pssm pads q a b old = Ok (mkScores [] 0) /\
-    sse2_rows_into F32.add F32.zero 32 pssm q a b old = Ok (mkScores [] 0) /\
-    dispatch_rows_into F32.add F32.zero dispatch_score_f32 avx2_permute_consts avx2_gather_consts
+    sse2_rows_into F32.add F32.zero sse2_consts 32 pssm q a b old = Ok (mkScores [] 0) /\
+    dispatch_rows_into F32.add F32.zero dispatch_score_f32 avx2_permute_consts avx2_gather_consts sse2_consts
                        K pssm pads ar q a b old = Ok (mkScores [] 0).
 Proof.
   intros K pssm pads s q ar a b old HK Hs Hp Hst Hw HM Hwrap HL.
@@ -380,7 +419,7 @@ Theorem C01_simd_guard_unconfigured :
          (pssm : list (list T)) (pads : nat -> list T) (q : sseq) (a b : nat) (old : sscores T),
     1 <= length pssm -> sq_wrap q < length pssm - 1 ->
     avx2_rows_into add zero avx2_permute_consts avx2_gather_consts K pssm pads q a b old = Panic 31 /\
-    sse2_rows_into add zero C pssm q a b old = Panic 31.
+    sse2_rows_into add zero sse2_consts C pssm q a b old = Panic 31.
 Proof.
   intros T add zero K C pssm pads q a b old HM Hw. split.
   - unfold avx2_rows_into, avx2_permute_rows_into, avx2_gather_rows_into.
@@ -396,7 +435,7 @@ Theorem C01_score_layouts_16_32 :
     0 < K -> Forall (fun x => x < K) s -> pssm_wf K pssm ->
     Striped C (K - 1) s q ->
     1 <= length pssm -> length pssm - 1 <= sq_wrap q ->
-    res_equiv (score_with (sse2_rows_into F32.add F32.zero C pssm) q)
+    res_equiv (score_with (sse2_rows_into F32.add F32.zero sse2_consts C pssm) q)
               (generic_score F32.add F32.zero C pssm q) /\
     rbind (generic_score F32.add F32.zero C pssm q) (sc_unstripe C) =
     Ok (map (score_def F32.add F32.zero (K - 1) pssm s) (seq 0 (length s + 1 - length pssm))).
@@ -520,9 +559,9 @@ Theorem C01_history_backends :
       generic_score F32.add F32.zero 32 pssm (of_stripe st) = Ok sc /\
       score_with (avx2_rows_into F32.add F32.zero avx2_permute_consts avx2_gather_consts K pssm pads)
                  (of_stripe st) = Ok sc /\
-      score_with (sse2_rows_into F32.add F32.zero 32 pssm) (of_stripe st) = Ok sc /\
+      score_with (sse2_rows_into F32.add F32.zero sse2_consts 32 pssm) (of_stripe st) = Ok sc /\
       score_with (dispatch_rows_into F32.add F32.zero dispatch_score_f32 avx2_permute_consts
-                                     avx2_gather_consts K pssm pads ar) (of_stripe st) = Ok sc /\
+                                     avx2_gather_consts sse2_consts K pssm pads ar) (of_stripe st) = Ok sc /\
       rbind (Ok sc) (sc_unstripe 32) =
       Ok (map (score_def F32.add F32.zero (K - 1) pssm (LMStripe.StripeAvx2.last_seq [] ops))
               (seq 0 (length (LMStripe.StripeAvx2.last_seq [] ops) + 1 - length pssm))).
@@ -556,7 +595,7 @@ Check C01_score_sse2_eq_f32 :
     0 < K -> Forall (fun x => x < K) s -> pssm_wf K pssm ->
     Striped C (K - 1) s q -> sc_wf C old ->
     1 <= length pssm -> length pssm - 1 <= sq_wrap q ->
-    res_equiv (sse2_rows_into F32.add F32.zero C pssm q a b old)
+    res_equiv (sse2_rows_into F32.add F32.zero sse2_consts C pssm q a b old)
               (generic_rows_into F32.add F32.zero C pssm q a b old).
 
 Check C01_score_unstripe :
@@ -610,7 +649,7 @@ Example C01_readme_scores :
   bits (generic_score F32.add F32.zero 32 readme_pssm q) 0 = Ok 0xc1b89149%Z /\
   bits (score_with (avx2_rows_into F32.add F32.zero avx2_permute_consts avx2_gather_consts 5
                                    readme_pssm (fun _ => [F32.nan; F32.nan; F32.nan])) q) 0 = Ok 0xc1b89149%Z /\
-  bits (score_with (sse2_rows_into F32.add F32.zero 32 readme_pssm) q) 0 = Ok 0xc1b89149%Z /\
+  bits (score_with (sse2_rows_into F32.add F32.zero sse2_consts 32 readme_pssm) q) 0 = Ok 0xc1b89149%Z /\
   rbind (rbind (generic_score F32.add F32.zero 32 readme_pssm q) (sc_unstripe 32))
         (fun v => Ok (length v)) = Ok 50.
 Proof. vm_compute. repeat split; reflexivity. Qed.
